@@ -247,6 +247,22 @@ def check_case(ctx, case):
                 return res.violate('subst', '$env:NAME is not the value the variable has when the evaluation runs (variable changed between evaluations in one process)',
                                    step=k, expect=val, got=r_.get('values'), err=r_['err'])
         res.ev('environment_changed_between_evaluations')
+        # {$repeat} is the index of the ENCLOSING repeat: a list-level repeat nested in a map-level one must not leak its index into
+        # the key and the siblings evaluated after it, and a {$repeat} after (outside) a list repeat is a missing reference
+        nested = {'servers': {'$"s{$repeat}"': {'$repeat': 2, 'ports': [{'$repeat': 3, 'p': '$"p{$repeat}"'}], 'zname': '$"n{$repeat}"'}}}
+        ports = [{'p': 'p0'}, {'p': 'p1'}, {'p': 'p2'}]
+        want = [{'servers': {'s0': {'ports': ports, 'zname': 'n0'}, 's1': {'ports': ports, 'zname': 'n1'}}}]
+        stray = {'a': [{'$repeat': 2, 'x': '$"x{$repeat}"'}], 'b': '$"after-{$repeat}"'}
+        rn = ctx.call([{'op': 'merge_doc', 'id': 'nest', 'data': nested, 'parser': 20}, {'op': 'output_docs', 'parser': 20},
+                       {'op': 'merge_doc', 'id': 'stray', 'data': stray, 'parser': 21}, {'op': 'output_docs', 'parser': 21}], res, worker=w)
+        if rn is None:
+            return res.violate('crash', 'worker died (nested repeat)')
+        if rn['results'][1]['err'] is not None or not veq(rn['results'][1]['values'], want):
+            return res.violate('subst', '{$repeat} below a map-level repeat is not the index of the enclosing repeat once a nested list repeat has run',
+                               doc=nested, expect=want, got=rn['results'][1].get('values'), err=rn['results'][1]['err'])
+        if rn['results'][3]['err'] is None:
+            return res.violate('missing', '{$repeat} outside any repeat (after a list repeat in the same document) did not fail', doc=stray, got=rn['results'][3].get('values'))
+        res.ev('nested_repeat_scopes_checked')
     if case.get('cli'):
         dd = ctx.casedir()
         with open(os.path.join(dd, 'in.json'), 'w') as f:
